@@ -29,6 +29,7 @@ type LoopSpec struct {
 	Invs      []*Clause
 	Ghosts    []*GhostUpd // executed at the end of every iteration
 	Decreases SExpr
+	Modifies  []SExpr // loop-level frame: only these locations change in the loop
 }
 
 type Macro struct {
@@ -510,6 +511,18 @@ func (ps *PkgSpec) parseFile(file, data string) error {
 					return errf("%v", err)
 				}
 				ls.Ghosts = append(ls.Ghosts, g)
+			case strings.HasPrefix(body, "modifies"):
+				for _, part := range splitTop(strings.TrimSpace(body[len("modifies"):]), ',') {
+					part = strings.TrimSpace(part)
+					if part == "" {
+						continue
+					}
+					e, err := parseSpec(part)
+					if err != nil {
+						return errf("%v", err)
+					}
+					ls.Modifies = append(ls.Modifies, e)
+				}
 			case strings.HasPrefix(body, "decreases"):
 				e, err := parseSpec(strings.TrimSpace(body[len("decreases"):]))
 				if err != nil {
